@@ -4,25 +4,25 @@ CONSTANTS
   MaxDepth = 3
   MaxUnits = 1
   MaxVar = 30
-  UnitKinds <- SubOnly
-  ConKinds <- SweepCons
-  SpecKinds <- Empty
-  SimpleV <- SimpleAll
-  DeclV <- Set1
-  UseV <- Set1
+  UnitKinds <- SweepUnits
+  ConKinds <- Empty
+  SpecKinds <- AllSpec
+  SimpleV <- Set1
+  DeclV <- DeclAll
+  UseV <- UseAll
   FormatV <- Set1
-  CompV <- Set1
-  TbindV <- Set1
+  CompV <- CompAll
+  TbindV <- TbindAll
   NameChoices <- Set1
   EndForms <- Set1
   LabelStmts = FALSE
   Contains = FALSE
-  PKinds <- KMut
+  PKinds <- KBrk
   MaxEdits = 1
   InsSet <- InsSmall
   MinEdits = 0
   Randomised = FALSE
-  DumpMod = 157
+  DumpMod = 150
   NRepl = 17
   RichOnly = TRUE
   NeedStruct = FALSE
